@@ -2,11 +2,16 @@
    signatures' public-key attribute, Transaction.verify over all inputs, what survives raw()/parse, and the
    scenario machine the correspondence driver runs.  Definitions only; [lib_*] mirrors the code as it is.
 
+   Further down: how the PARSE path learns the threshold m from the redeem / witness script (the statements of
+   Input.update_scripts, translated from the working tree into Gen/GenC02.v), and what happens when ONE attribute of a
+   signed object is written by hand (which attribute raw() serializes each field from, which one the digest functions
+   read, the second copies nothing reads, the verification context / derived scripts only update_scripts() aligns).
+
    A public key is identified by the integer id of its *public byte string* (so the compressed and the
    uncompressed encoding of one curve point are two different keys, as for Key.__eq__ on public keys and for
    pub_key_list.index(...)).  A signature is a body (the (r, s) pair) plus the tag Signature.public_key. *)
 From Coq Require Import List Bool Arith ZArith.
-From Verif Require Import Model.VerifyInput.
+From Verif Require Import Lib.Bytes Model.VerifyInput Gen.GenC02.
 Import ListNotations.
 
 Section Sign.
@@ -314,6 +319,154 @@ Definition c_mk (epoch : Z) (k : Z) : cbody := (point_of k, epoch, 0%Z, 1%Z, 1%Z
 Definition c_mk_ht (epoch ht : Z) (k : Z) : cbody := (point_of k, epoch, 0%Z, ht, ht).
 Definition c_set_carried (ht : Z) (b : cbody) : cbody := let '(p, e, v, hm, _) := b in (p, e, v, hm, ht).
 
+
+(* ====================================================================================================
+   How the PARSE path learns the threshold m (Input.update_scripts, branch p2sh_multisig / p2sh_p2wsh):
+
+       if self.redeemscript and self.keys:
+           n_tag = self.redeemscript[0:1]; if not isinstance(n_tag, int): n_tag = int.from_bytes(n_tag, 'big')
+           self.sigs_required = n_tag - 80
+
+   The statements are translated from the working tree into Gen.GenC02.gen_threshold (b0 b1 len cur) — first two
+   bytes of the script, its length, the value sigs_required had before — and that function is what the machine
+   below runs.  The two readings written out here: [lib_thr_v0] the code as it is, [lib_thr_v1] the code after the
+   proposed repair fixes/C02-7 (a number above 16 has no opcode; it is pushed as one byte of data: 01 n).
+   Proofs/VerifyThreshold.v proves gen_threshold equal to one of the two.
+   ==================================================================================================== *)
+Definition lib_thr_v0 (b0 b1 len cur : Z) : Z := (b0 - 80)%Z.
+Definition lib_thr_v1 (b0 b1 len cur : Z) : Z :=
+  if (Z.eqb b0 1 && Z.gtb len 1)%bool then b1 else (b0 - 80)%Z.
+
+Definition script_threshold (rd : Z -> Z -> Z -> Z -> Z) (script : bytes) (cur : Z) : Z :=
+  match script with
+  | [] => cur                                   (* `if self.redeemscript and self.keys` is not entered *)
+  | b0 :: rest => rd (bz b0) (match rest with b1 :: _ => bz b1 | [] => 0%Z end) (Z.of_nat (length script)) cur
+  end.
+Definition lib_script_threshold : bytes -> Z -> Z := script_threshold gen_threshold.
+
+(* a number as an item of a multisig script.  Consensus (script numbers, minimal push): OP_1 .. OP_16 = 0x51 .. 0x60;
+   17 .. 127 have no opcode of their own and are pushed as one byte of data: 0x01 n *)
+Definition spec_num_item (n : Z) : bytes := if Z.leb n 16 then [zb (80 + n)] else [zb 1; zb n].
+(* Script(script_types=['multisig'], ...) writes  number + 80  as ONE byte whatever the number *)
+Definition lib_num_item (n : Z) : bytes := [zb (80 + n)].
+Definition push_item (k : bytes) : bytes := zb (Z.of_nat (length k)) :: k.
+Definition ms_script (num : Z -> bytes) (m : Z) (keys : list bytes) : bytes :=
+  num m ++ concat (map push_item keys) ++ num (Z.of_nat (length keys)) ++ [zb 174].
+Definition spec_ms_script := ms_script spec_num_item.
+Definition lib_ms_script := ms_script lib_num_item.
+
+(* Transaction.parse of ONE m-of-n multisig input whose serialized signature list is [sel] (signature id = position
+   of the key that made it; negative ids: a foreign key's / a corrupted signature), then verify().
+   Witness path (P2WSH, P2SH-P2WSH): sigs_required starts as 1 and update_scripts reads the witness script.
+   Legacy P2SH: Script.parse reads  commands[0] - 80  of the recognised redeem script (n <= 15 there), Input.__init__
+   takes it, update_scripts re-creates the redeem script from keys and that number and reads it back.
+   Answer: (sigs_required after parse, verdict, validity matrix). *)
+Definition thr_keys (n : nat) : list Z := map Z.of_nat (seq 0 n).
+Definition thr_sv (s k : Z) : bool := Z.eqb s k.
+Definition thr_key_bytes (k : Z) : bytes := [zb 2; zb k].
+Definition lib_parsed_threshold (witness : bool) (m : Z) (n : nat) : Z :=
+  let ks := map thr_key_bytes (thr_keys n) in
+  if witness then lib_script_threshold (spec_ms_script m ks) 1%Z
+  else lib_script_threshold (lib_ms_script m ks) m.
+Definition lib_thr_run (witness : bool) (m : Z) (n : nat) (sel : list Z) : Z * bool * list (list bool) :=
+  let sr := lib_parsed_threshold witness m n in
+  (sr, lib_verify_input thr_sv false (thr_keys n) sel (Z.to_nat sr), map (fun s => map (thr_sv s) (thr_keys n)) sel).
+
+(* ====================================================================================================
+   Attributes a caller can write, one at a time, and what reads them.
+   The consensus digest of the bytes raw() returns commits to FIELDS; raw() fills every field from one attribute
+   of the object ([lib_raw_source], Transaction.raw) and the digest functions take every field from one attribute
+   ([lib_digest_source]: Transaction.signature_segwit for BIP143 inputs, Transaction.raw(sign_id, ...) for legacy
+   ones).  The object holds further copies (version_int, output_n_int) and many attributes neither function reads
+   ([AOther]).  The last group of constructors are the attributes that are NOT fields of the transaction: what the
+   object believes about the output being spent / the signatures it holds (read by verification only) and the
+   scripts derived from them by update_scripts() (read by raw() only).
+   ==================================================================================================== *)
+Inductive field :=
+| FVersion | FLocktime
+| FPrev (j : nat) | FOutN (j : nat) | FSeq (j : nat)
+| FOutValue (j : nat) | FOutScript (j : nat)
+| FAmount (j : nat).          (* amount of the output input j spends: not serialized; the verifier is told (Input.value) *)
+
+Inductive attr :=
+| AVersion | AVersionInt | ALocktime                               (* Transaction.version (bytes) / .version_int / .locktime *)
+| APrev (j : nat) | AOutN (j : nat) | AOutNInt (j : nat) | ASeq (j : nat) | AInValue (j : nat)
+| AOutValue (j : nat) | AOutScript (j : nat)                       (* Output.value / .lock_script *)
+| AOther                                                           (* any other attribute of the three classes *)
+| AHashType (j : nat) (v : Z) | ASigsRequired (j : nat) (v : Z)
+| AKeys (j : nat) (sel : list nat) | ASignatures (j : nat) (sel : list nat)
+| ARedeem (j : nat) | ALocking (j : nat)
+| AUnlocking (j : nat) | AWitnesses (j : nat).
+
+Definition lib_raw_source (f : field) : attr :=
+  match f with
+  | FVersion => AVersion | FLocktime => ALocktime
+  | FPrev j => APrev j | FOutN j => AOutN j | FSeq j => ASeq j
+  | FOutValue j => AOutValue j | FOutScript j => AOutScript j
+  | FAmount j => AInValue j
+  end.
+
+(*  signature_segwit:  ser_tx = self.version[::-1] + hash_prevouts + hash_sequence + inp.prev_txid[::-1] + inp.output_n[::-1]
+                                + varstr(inp.redeemscript) + int(inp.value).to_bytes(8, 'little') + inp.sequence... + hash_outputs
+                                + self.locktime... + hash_type...          (o.value, o.lock_script in hash_outputs)
+    raw(sign_id, ...) is the serializer itself *)
+Definition lib_digest_source (f : field) : attr :=
+  match f with
+  | FVersion => AVersion | FLocktime => ALocktime
+  | FPrev j => APrev j | FOutN j => AOutN j | FSeq j => ASeq j
+  | FOutValue j => AOutValue j | FOutScript j => AOutScript j
+  | FAmount j => AInValue j
+  end.
+
+(* a digest that took the version from the integer copy (not the code: the witness of theorem
+   digest_reads_serialised_copy being sharp) *)
+Definition alt_digest_source_version_int (f : field) : attr :=
+  match f with FVersion => AVersionInt | _ => lib_digest_source f end.
+
+(* SIGHASH_ALL: the legacy digest commits to every serialized field; BIP143 additionally to the amount its own input spends *)
+Definition spec_commits (segwit : bool) (i : nat) (f : field) : bool :=
+  match f with FAmount j => segwit && Nat.eqb i j | _ => true end.
+
+Definition all_fields (nin nout : nat) : list field :=
+  [FVersion; FLocktime]
+  ++ flat_map (fun j => [FPrev j; FOutN j; FSeq j; FAmount j]) (seq 0 nin)
+  ++ flat_map (fun j => [FOutValue j; FOutScript j]) (seq 0 nout).
+
+Definition attr_eqb (a b : attr) : bool :=
+  match a, b with
+  | AVersion, AVersion | AVersionInt, AVersionInt | ALocktime, ALocktime => true
+  | APrev i, APrev j | AOutN i, AOutN j | AOutNInt i, AOutNInt j | ASeq i, ASeq j | AInValue i, AInValue j
+  | AOutValue i, AOutValue j | AOutScript i, AOutScript j => Nat.eqb i j
+  | _, _ => false
+  end.
+
+(* does a write of attribute a change the digest of input i, when fields are taken from the attributes [src] says? *)
+Definition commit_reads (src : field -> attr) (nin nout : nat) (segwit : bool) (i : nat) (a : attr) : bool :=
+  existsb (fun f => attr_eqb (src f) a && spec_commits segwit i f) (all_fields nin nout).
+
+(* input kinds: 0 p2pkh, 1 p2pk, 2 p2sh multisig, 3 p2wpkh, 4 p2sh-p2wpkh, 5 p2wsh, 6 p2sh-p2wsh.
+   The script code of the digest is Input.redeemscript for every kind but the first two (signature_segwit stores the
+   locking script there on first use), Input.locking_script for p2pkh / p2pk (raw(sign_id)) *)
+Definition code_reads (kinds : list Z) (i : nat) (a : attr) : bool :=
+  match a with
+  | ARedeem j => Nat.eqb i j && Z.leb 2 (nth i kinds 0%Z)
+  | ALocking j => Nat.eqb i j && Z.ltb (nth i kinds 0%Z) 2
+  | _ => false
+  end.
+
+Definition is_ctx_attr (a : attr) : bool :=
+  match a with
+  | AHashType _ _ | ASigsRequired _ _ | AKeys _ _ | ASignatures _ _ | ARedeem _ | ALocking _ | AUnlocking _
+  | AWitnesses _ => true
+  | _ => false
+  end.
+
+Definition new_epochs (reads : nat -> bool) (es es' : list Z) : list Z :=
+  map (fun ie => if reads (fst ie) then nth (fst ie) es' (snd ie) else snd ie) (combine (seq 0 (length es)) es).
+
+Definition sel_list {A : Type} (l : list A) (sel : list nat) : list A :=
+  flat_map (fun p => match nth_error l p with Some x => [x] | None => [] end) sel.
+
 Inductive op :=
 | OSign (target : option nat) (replace fail_unknown : bool) (signers : list Z)
 | OVerify
@@ -328,11 +481,19 @@ Inductive op :=
 | OUntag (i pos : nat)
 | OPlace (i : nat) (ht : Z) (ks : list Z)                 (* input i carries third-party signatures for hash type ht *)
 | ORoundHt (patches : list (nat * nat * Z))               (* parse(raw with hash-type bytes changed).verify() *)
-| OCtor (patches : list (nat * nat * Z)).                 (* inputs rebuilt from serialized signatures, verify() *)
+| OCtor (patches : list (nat * nat * Z))                  (* inputs rebuilt from serialized signatures, verify() *)
+| OWrite (a : attr) (nout : nat) (es' : list Z)           (* ONE attribute of the live object written; es' = the digest ids
+                                                             the inputs have if the write is seen by their digest *)
+| OProbe (a : attr) (nout : nat) (es' : list Z) (kinds : list Z)
+                                                          (* the same on a deep copy: verify() of the copy and the consensus
+                                                             verdict on the bytes raw() of the copy returns *)
+| OUnknownAttrs.                                          (* attributes of the object outside the frozen list: none *)
 
 Inductive obs :=
 | ObsSign (code : Z)
 | ObsVerify (verdict : bool) (valid : list (option bool)) (matrix : list (list (list bool)))
+| ObsBoth (verdict : bool) (valid : list (option bool)) (broadcast : bool)
+| ObsAttrs
 | ObsNone.
 
 Record cstate := { cs_ins : list (@sinput cbody); cs_epochs : list Z }.
@@ -387,6 +548,67 @@ Definition patch_ht (p : nat * nat * Z) (ins : list (@sinput cbody)) : list (@si
      | Some s => set_nth pos {| body := c_set_carried ht (body s); tag := tag s |} (si_sigs x)
      | None => si_sigs x
      end) ins.
+
+
+(* ---------- one attribute written ---------- *)
+Definition segwit_at (ins : list (@sinput cbody)) (i : nat) : bool :=
+  match nth_error ins i with Some x => si_segwit x | None => false end.
+
+(* digest ids after the write, as the LIBRARY's digest functions see the object ... *)
+Definition lib_write_epochs (src : field -> attr) (kinds : list Z) (nout : nat) (ins : list (@sinput cbody)) (a : attr)
+           (es es' : list Z) : list Z :=
+  new_epochs (fun i => commit_reads src (length ins) nout (segwit_at ins i) i a || code_reads kinds i a) es es'.
+(* ... and as the consensus digest of the bytes raw() returns (amounts: what the verifier is told) *)
+Definition raw_write_epochs (nout : nat) (ins : list (@sinput cbody)) (a : attr) (es es' : list Z) : list Z :=
+  new_epochs (fun i => commit_reads lib_raw_source (length ins) nout (segwit_at ins i) i a) es es'.
+
+Definition write_input (a : attr) (j : nat) (x : @sinput cbody) : @sinput cbody :=
+  match a with
+  | AHashType j' v =>
+    if Nat.eqb j j' then {| si_segwit := si_segwit x; si_keys := si_keys x; si_m := si_m x; si_sigs := si_sigs x;
+                            si_valid := si_valid x; si_hash_ok := si_hash_ok x; si_ht := v |} else x
+  | ASigsRequired j' v =>
+    if Nat.eqb j j' then {| si_segwit := si_segwit x; si_keys := si_keys x; si_m := Z.to_nat v; si_sigs := si_sigs x;
+                            si_valid := si_valid x; si_hash_ok := si_hash_ok x; si_ht := si_ht x |} else x
+  | AKeys j' sel =>
+    if Nat.eqb j j' then {| si_segwit := si_segwit x; si_keys := sel_list (si_keys x) sel; si_m := si_m x;
+                            si_sigs := si_sigs x; si_valid := si_valid x; si_hash_ok := si_hash_ok x; si_ht := si_ht x |}
+    else x
+  | ASignatures j' sel => if Nat.eqb j j' then with_sigs x (sel_list (si_sigs x) sel) else x
+  | _ => x
+  end.
+
+Definition write_inputs (a : attr) (ins : list (@sinput cbody)) : list (@sinput cbody) :=
+  map (fun jx => write_input a (fst jx) (snd jx)) (combine (seq 0 (length ins)) ins).
+
+(* the scripts raw() writes are those update_scripts() derived the last time it ran; written by hand they are no
+   longer what the spent output asks for *)
+Definition ser_broken (a : attr) (j : nat) (segwit : bool) : bool :=
+  match a with
+  | AUnlocking j' => Nat.eqb j j'
+  | AWitnesses j' => Nat.eqb j j' && segwit
+  | _ => false
+  end.
+
+(* consensus on the serialized form of one input: exactly m signatures (the first m the object holds, when it holds
+   that many), matched in key order against the keys and threshold of the OUTPUT BEING SPENT *)
+Definition spec_input_broadcast {S K : Type} (sv : S -> K -> bool) (keys : list K) (ser : list S) (m : nat) : bool :=
+  Nat.eqb (length ser) m && Nat.leb 1 m && lib_verify_loop sv keys ser m.
+
+Definition spec_broadcast (a : attr) (es_raw : list Z) (ins : list (@sinput cbody)) : bool :=
+  forallb (fun ix => let i := fst ix in let x := snd ix in
+             negb (ser_broken a i (si_segwit x))
+             && spec_input_broadcast (c_cons (epoch_at es_raw i)) (si_keys x)
+                  (map (@body cbody) (lib_roundtrip_sigs (si_m x) (si_sigs x))) (si_m x))
+          (combine (seq 0 (length ins)) ins).
+
+Definition run_probe (src : field -> attr) (st : cstate) (a : attr) (nout : nat) (es' kinds : list Z) : obs :=
+  let es := cs_epochs st in
+  let ins := cs_ins st in
+  let es_lib := lib_write_epochs src kinds nout ins a es es' in
+  let ins_w := write_inputs a ins in
+  let (b, ins') := lib_tx_verify_run (c_svi es_lib ins_w) ins_w in
+  ObsBoth b (map (@si_valid cbody) ins') (spec_broadcast a (raw_write_epochs nout ins a es es') ins).
 
 Definition run_op (fixed : bool) (st : cstate) (o : op) : cstate * obs :=
   let es := cs_epochs st in
@@ -446,6 +668,10 @@ Definition run_op (fixed : bool) (st : cstate) (o : op) : cstate * obs :=
     ({| cs_ins := update_at i (edit_sigs (fun p l => match nth_error l p with
                      | Some s => set_nth p (untag s) l | None => l end) pos)
                             (cs_ins st); cs_epochs := es |}, ObsNone)
+  | OWrite a nout es' =>
+    ({| cs_ins := cs_ins st; cs_epochs := lib_write_epochs lib_digest_source [] nout (cs_ins st) a es es' |}, ObsNone)
+  | OProbe a nout es' kinds => (st, run_probe lib_digest_source st a nout es' kinds)
+  | OUnknownAttrs => (st, ObsAttrs)
   end.
 
 Fixpoint run_ops (fixed : bool) (st : cstate) (ops : list op) : list obs :=
